@@ -40,8 +40,13 @@ META = {
     "note": "the model is abstract (matrices and an arbitrary force law); that the engine's arrays instantiate it (same M, J, aref, "
             "bias, passive force in both pipelines; qfrc_smooth composition; mj_rne / tendon bias) is covered by the oracle only. "
             "The call-graph check shows reachability of the shared function, not that it is the last writer of efc_force. PGS (dual "
-            "solver: its efc_force is not an output of mj_constraintUpdate) is outside the theorem and is sampled only where it "
-            "converged.",
+            "solver: its efc_force is not an output of mj_constraintUpdate and its qacc is computed from its forces, so stationarity "
+            "holds by construction) is outside the theorem: it is judged where it left its loop through its own exit test, at a looser "
+            "tolerance. 'The forward solver has converged' is decided from the solver's outputs: scaled stationarity residual "
+            "|M qacc - qfrc_smooth - qfrc_constraint| / (meaninertia nv) < 1e-9 (Newton, CG). Two genuine deviations of the tree are "
+            "reported under stable keys: c09:pgs-elliptic-forward-inverse-mismatch (PGS with elliptic cones stops off the optimum; "
+            "same root cause as c10:pgs-elliptic-converges-off-optimum) and c09:invdiscrete-ignores-disabled-damper (mj_discreteAcc "
+            "tests mjDSBL_EULERDAMP only, mj_EulerSkip also mjDSBL_DAMPER).",
 }
 
 THEOREMS = [
